@@ -714,6 +714,31 @@ def execute(scn, want):
         if want == "C18":
             if len(m.announced) != ok_classes:
                 violations.append({"rule": "C18.R1", "classifier": "total-announcements-%s" % ("more" if len(m.announced) > ok_classes else "fewer"), "detail": {"announced": len(m.announced), "classes": ok_classes}})
+        # "states" of a definition history: the shape of the class hierarchy after each step (names abstracted to positions)
+        sigs = []
+        order = {}
+        acc = []
+        for st_ in scn.get("steps") or []:
+            sp = st_.get("spec") or {}
+            if st_["op"] in ("class", "bad") and "name" in sp and "methods" in sp:
+                order[sp["name"]] = len(order)
+                bs = ([sp["base"]] if sp.get("base") else []) + list(sp.get("bases2", ()))
+                acc.append(
+                    (
+                        tuple(order.get(b, -1) for b in bs),
+                        tuple(sorted((x.get("kind", "method"), bool(x.get("pre")), bool(x.get("post")), bool(x.get("snaps")), bool(x.get("setter"))) for x in sp.get("methods", ()))),
+                        tuple(sorted(i.get("check_on", "CALL") for i in sp.get("invs", ()))),
+                        sp.get("init") is not None,
+                        bool(sp.get("dbc", True)),
+                        bool(sp.get("meta_only")),
+                        sp.get("builtin"),
+                        "pyname" in sp,
+                    )
+                )
+            else:
+                acc.append((st_["op"], st_.get("kind"), st_.get("role")))
+            sigs.append(common.h64(tuple(acc)))
+        stats["state_sigs"] = sigs
         stats["probe_calls"] = m.probe_calls
         stats["manual_checks"] = m.manual_checks
         stats["events"] = len(m.run.log)
